@@ -260,6 +260,13 @@ pub fn run(ctx: &mut Ctx) {
     let n = ctx.size(6_000, 150_000);
     ctx.cases("corpus", n, |ctx, rng, _| {
         let p = corpus_program(rng);
+        // only programs the reference model follows to the end within its budget: the others may legitimately
+        // allocate without bound (seen: one of them took a whole shard with it in a thorough run)
+        let model = crate::refi::run(&p, b"line\n", &crate::refi::Budget::default());
+        if !matches!(model.outcome, crate::refi::RefOutcome::Ok | crate::refi::RefOutcome::Error(_)) {
+            ctx.count("corpus_programs_outside_the_models_budget_skipped");
+            return;
+        }
         let text = match render(&p, &Spelling::canonical(), rng) {
             Ok(r) => r.text,
             Err(_) => return,
